@@ -14,22 +14,28 @@ PROP = dict(
                  'well-formedness / slice bounds are checked by the Go twin of the Lean oracle (the twins are cross-checked on every dumped tree)'],
         assumptions=['header.Length equals the length of the byte string presented (C14 validates tables before they reach the parser)',
                      'table length < 2^32 - 1024 (SizeOk; uint32 offset arithmetic of the name decoder cannot wrap)'],
-        level_text='proof (partial). Proved in Lean for ALL tables and ALL reader states inside the table: the lexical layer - '
-                   'reader_inv (offset<=len and pkgEnd<=len preserved by every reader op and every decoder, none can panic or run out of '
-                   'fuel), reads_below_pkgEnd, slices_in_table_partial (slices built by parseString / parseNameString / parseByteList lie '
-                   'inside the table), stored_values_partial, total_partial (decoders total on fuel len+1), init_inv, and '
-                   'opcode_table_sane (kernel-evaluated over the opcode tables regenerated from the compiled Go code on every run). '
-                   'The statements about the whole multi-pass parser - C12.total (never panic / stack overflow / hang, fuel linear in '
-                   'the input), slices_in_table for every value stored in the tree, tree_WF after success and after failure, print_total - '
-                   'are NOT proved; they are decided per input by the oracle on the real parser and by model-vs-implementation '
-                   'correspondence over the deterministic boundary list + the mutational stream.',
-        level_note='Partial: only the lexical layer and the table facts are theorems; the parser passes (parseObjectList, parseArg, '
-                   'parseFieldElements, connectNamedObjArgs, mergeScopeDirectives, relocateNamedObjects, parseDeferredBlocks, '
-                   'resolveMethodCalls, connectNonNamedObjArgs, attachSiblingsAsArgs) are covered by differential testing of a faithful '
-                   'executable Lean port (0 mismatches incl. the 3577-object DSDT tree) and by the property oracle on the real code '
-                   '(outcome in {ok, parse error}; every stored []byte inside its table; pool links form a well-formed forest with an exact '
-                   'free list; PrettyPrint does not panic). Trusted: Lean kernel (+ propext, Classical.choice, Quot.sound), the theorem '
-                   'statements, the harness and child-process runner, Go toolchain. Five genuine defects found by this check were repaired '
-                   'in /repo (relocation cycle/stack overflow, Connection buffer past the table, attachSiblingsAsArgs corrupting the '
-                   'grandparent list on a successful parse, PrettyPrint nil dereference after a failed parse, 8-bit MultiNamePath length).',
+        level_text='proof (partial). Proved in Lean for ALL tables: (1) the WHOLE multi-pass parser keeps every stored slice inside the '
+                   'table - slices_in_table: whenever parseAML returns (success or parse error), from any pool whose values lie inside '
+                   'the table, every []byte value in the resulting pool and the reader window lie inside the table (partial '
+                   'correctness; any fuel; staged as first_pass_slices_in_table, tree_passes_slices_in_table, '
+                   'deferred_and_calls_slices_in_table); (2) the lexical layer completely - reader_inv, reads_below_pkgEnd, '
+                   'lex_slices_in_table, stored_values, total_partial (decoders never panic / run out of fuel, fuel len+1), init_inv; '
+                   '(3) opcode_table_sane over the opcode tables regenerated from the compiled Go code on every run. NOT proved: that '
+                   'the parser passes never end in .panic/.outOfFuel with fuel linear in the input (C12.total beyond the decoders), '
+                   'tree_WF after success/failure and print_total - these are decided per input by the oracle on the real parser and by '
+                   'model-vs-implementation correspondence over the boundary list and the mutational stream.',
+        level_note='Partial: totality (no panic, no stack overflow, no hang) and tree well-formedness of the parser passes are NOT theorems; '
+                   'they need the object-tree invariant of C13 with state-dependent operation contracts threaded through ~25 call sites '
+                   'and are covered by differential testing of a faithful executable Lean port (0 mismatches on 10^5-10^6 inputs incl. '
+                   'the 3577-object DSDT tree) plus the property oracle on the real code (outcome in {ok, parse error}; stored []byte '
+                   'inside its table; pool links form a well-formed forest with an exact free list; PrettyPrint does not panic). '
+                   'slices_in_table is a partial-correctness theorem about the model (runs ending in .panic/.outOfFuel return no tree) '
+                   'with hypothesis SizeOk (len+1024 <= 2^32) and an input pool holding only in-table values (true of the default scopes; '
+                   'multi-table loads are outside the theorem). Functions covered by slices_in_table: every function of '
+                   'Model/AmlParser.lean (parseObjectList ... connectNonNamedObjArgs, attachSiblingsAsArgs, parseFieldElements, '
+                   'parseStrictTermArg, parseDeferredBlocks, resolveMethodCalls). Trusted: Lean kernel (+ propext, Classical.choice, '
+                   'Quot.sound), the theorem statements, the harness and child-process runner, Go toolchain. Genuine defects found by '
+                   'this check and repaired in /repo: relocation cycle/stack overflow, Connection buffer past the table, '
+                   'attachSiblingsAsArgs corrupting the grandparent list on a successful parse, PrettyPrint nil dereference after a failed '
+                   'parse, 8-bit MultiNamePath length.',
 )
